@@ -360,4 +360,17 @@ theorem source_encodeVarint64_is_model (v : Int) (h0 : 0 ≤ v) (h1 : v < 2^64) 
 example : Generated.EncodeVarint_u64 10 (2^63) = some (true, [128, 128, 128, 128, 128, 128, 128, 128, 128, 1]) := by
   rw [source_encodeVarint64_is_model _ (by decide) (by decide)]; decide
 
+open Generated in
+/-- the recursion limit of `DecodeVarintUnsigned<uint32_t / uint64_t>` (the declaration of `max_depth` and the test
+    `if (depth > max_depth) return false;`, cut out of the translated function): `max_depth` is `varintMaxDepth w` — the
+    byte budget of the model's `decVarint w` — and the call fails exactly beyond it -/
+theorem source_varintMaxDepth_is_model (depth : Int) (h0 : 0 ≤ depth) (h1 : depth < 2^31) :
+    DecodeVarintUnsigned_depthCheck_u32 depth =
+      (if depth > (varintMaxDepth 32 : Nat) then some false else none, ((varintMaxDepth 32 : Nat) : Int)) ∧
+    DecodeVarintUnsigned_depthCheck_u64 depth =
+      (if depth > (varintMaxDepth 64 : Nat) then some false else none, ((varintMaxDepth 64 : Nat) : Int)) :=
+  ⟨DecodeVarintUnsigned_depthCheck_u32_eq_model depth h0 h1, DecodeVarintUnsigned_depthCheck_u64_eq_model depth h0 h1⟩
+example : Generated.DecodeVarintUnsigned_depthCheck_u32 6 = (some false, 5) ∧
+    Generated.DecodeVarintUnsigned_depthCheck_u64 10 = (none, 10) := by decide
+
 end Draco.C17
